@@ -251,3 +251,44 @@ func VC_C19_api_toggles() {
 	verifAssert(!off.diverted && !on.diverted, "C19.api.reset-restores")
 	verifReached("C19.api")
 }
+
+func vC19Outer(i int) int { return i }
+func vC19Inner(i int) int { return i }
+
+// VC_C19_nested_mocks: a mock callback that calls another mocked function (each call goes
+// through its own logging wrapper when logging is on): the same result with logging off
+// and under any logging configuration - in particular the nested call returns.
+func VC_C19_nested_mocks() {
+	vEnv()
+	vPristine(vC19Outer)
+	vPristine(vC19Inner)
+	verifApart(verifFuncCode(vC19Outer), verifFuncCode(vC19Inner), 32)
+	x := verifInt("x")
+	run := func(console, level, console2, level2 int) (res int, panicked bool) {
+		logger.ConsoleLevel, logger.LogLevel = console, level
+		b := Create()
+		b.Func(vC19Inner).Apply(func(i int) int { return i + 7 })
+		b.Func(vC19Outer).Apply(func(i int) int {
+			inner := vInvoke(vC19Inner, "C19.nested.inner").(func(int) int)
+			return inner(i) + 100
+		})
+		logger.ConsoleLevel, logger.LogLevel = console2, level2
+		f := vInvoke(vC19Outer, "C19.nested").(func(int) int)
+		func() {
+			defer func() {
+				if r := recover(); r != nil {
+					panicked = true
+				}
+			}()
+			res = f(x)
+		}()
+		b.Reset()
+		return
+	}
+	r1, p1 := run(logger.WarningLevel, logger.InfoLevel, logger.WarningLevel, logger.InfoLevel)
+	r2, p2 := run(verifInt("console2"), verifInt("level2"), verifInt("console3"), verifInt("level3"))
+	verifAssert(!p1 && r1 == x+107, "C19.nested.off-delivers")
+	verifAssert(p2 == p1 && r2 == r1, "C19.nested.same-results-and-panics")
+	verifAssert(!vDiverted(vC19Outer) && !vDiverted(vC19Inner), "C19.nested.reset-restores")
+	verifReached("C19.nested")
+}
